@@ -50,6 +50,8 @@ def run(rep, tier, seed):
     # parsing and executing one template must not change what another one renders afterwards: the multi-execution
     # families of Gen_C08 (two entry templates sharing a library; block tables built from two sources)
     gen_and_replay(rep, wd, exe, "Gen_C08.tla", "C10_shared_tables", {"Families": '{"shared", "alias"}'}, {}, trace_execs=0)
+    # what a custom function binds through the Runtime API while Execute has no VarMap is gone in the next execution
+    gen_and_replay(rep, wd, exe, "Gen_C18.tla", "C10_api_nilvars", {"Depth": 0, "Families": '{"top"}'}, {}, trace_execs=0)
     access_histories(rep, wd, exe)
     if tier == "thorough":
         asis_refuted(rep, wd, "Gen_C10.tla", "C10_asis", {"Depth": 1, "FixPool": "FALSE"}, {"Kinds": "WrapKinds"}, ("StartsClean",))
